@@ -10,6 +10,9 @@ POOL = {
     'B': dict(ids=[2001, 1004], edition=3, n_subsets=2, compressed=False, sec2=b'\x01\x02'),
     'C': dict(ids=[1004], edition=4, n_subsets=2, compressed=True, sec2=None),
     'D': dict(ids=[12001], edition=2, n_subsets=1, compressed=False, sec2=None),
+    # the same element with associated fields of different widths (what a per-coder memo of descriptors would confuse)
+    'E': dict(ids=[204001, 31021, 1004, 204000], edition=4, n_subsets=1, compressed=False, sec2=None),
+    'F': dict(ids=[204003, 31021, 1004, 204000, 1004], edition=4, n_subsets=1, compressed=False, sec2=None),
 }
 
 
